@@ -232,6 +232,85 @@ def run(chk):
             nf += 1
     chk.count("flush_region_cases", nf)
 
+    # ---- regions entered after a state change that keeps the thread active (cooling; paused -> warming -> running): the
+    # tracking mux re-selects the SAME input, the row must go on showing the innermost region
+    na = 0
+    for (d, ch) in sorted(stackch):
+        t = stackch[(d, ch)][0]
+        po = pops.get((d, ch, t["value"]))
+        if po is None:
+            continue
+        e = mid[d] + chr(t["c"]) + chr(t["v"])
+        l = mid[d] + chr(po["c"]) + chr(po["v"])
+        t2 = stackch[(d, ch)][1] if len(stackch[(d, ch)]) > 1 else None
+        shapes = [["OHx", "OHp", "OHw", "OHr", e, l, "OHe"], ["OHx", e, "OHp", "OHw", "OHr", l, e, l, "OHe"]]
+        if d in ("nosv", "nanos6"):           # models that only need an ACTIVE thread: also while cooling
+            shapes += [["OHx", "OHc", e, l, e, l, "OHe"], ["OHx", e, "OHc", l, e, l, "OHe"]]
+        if t2 is not None and pops.get((d, ch, t2["value"])) is not None:
+            e2 = mid[d] + chr(t2["c"]) + chr(t2["v"])
+            l2 = mid[d] + chr(pops[(d, ch, t2["value"])]["c"]) + chr(pops[(d, ch, t2["value"])]["v"])
+            shapes.append(["OHx", "OHp", "OHw", "OHr", e, e2, l2, l, "OHe"])
+        for shape in shapes:
+            s = one_thread(tables, name[d])
+            s.events = []
+            clk = 10
+            for mcv in shape:
+                s.events.append((0, clk, mcv, (i32(0) + i32(101) + i32(0)) if mcv == "OHx" else b""))
+                clk += 5
+            scs.append(s)
+            na += 1
+    chk.count("regions_after_active_state_change_cases", na)
+
+    # ---- "the thread must be in the state the model requires": the first enter event of every stack channel, and the flush
+    # region of the base model, (a) from a paused thread, (b) from a thread the kernel model has taken out of the CPU, and the
+    # controls (b') back in the CPU.  Requirements as the models document them: running (NODES, MPI, TAMPI, OpenMP), active
+    # (Nanos6), active and in the CPU (nOS-V); the flush region only needs the thread in the CPU; the kernel model itself none.
+    req = []       # (scenario, expected "reject"/"accept", what)
+    ents = [(d, mid[d] + chr(stackch[(d, ch)][0]["c"]) + chr(stackch[(d, ch)][0]["v"])) for (d, ch) in sorted(stackch)] + [("ovni", "OF[")]
+    for (d, e) in ents:
+        if d == "kernel":
+            continue
+        def mk(shape, with_kernel):
+            s = one_thread(tables, name[d])
+            if with_kernel and "kernel" not in s.enabled:
+                s.enabled = s.enabled + ["kernel"]
+            s.events = []
+            clk = 10
+            for mcv in shape:
+                s.events.append((0, clk, mcv, (i32(0) + i32(101) + i32(0)) if mcv == "OHx" else b""))
+                clk += 5
+            return s
+        if e != "OF[":
+            req.append((mk(["OHx", "OHp", e], False), "reject", "%s from a paused thread" % e))
+        if d in ("nosv", "ovni"):
+            req.append((mk(["OHx", "KCO", e], True), "reject", "%s from a thread that is out of the CPU" % e))
+            req.append((mk(["OHx", "KCO", "KCI", e] + (["OF]"] if e == "OF[" else []) + ["OHe"], True),
+                        "accept" if e == "OF[" else "accept-until-end", "%s after the thread is back in the CPU" % e))
+    chk.count("state_requirement_cases", len(req))
+    rreal = emucore.run_real(build, [x[0] for x in req])
+    for (s, want, what), r in zip(req, rreal):
+        desc = s.describe()
+        chk.case(("req", desc["events"], desc["enabled"]))
+        last = s.events[-1]
+        t0 = min(ev[1] for ev in s.events)
+        m_ = __import__("re").search(r"rclock=(\d+)", r["stderr"])
+        at_probe = m_ is not None and int(m_.group(1)) == last[1]
+        if want == "reject":
+            if r["rc"] == 0 or not at_probe:
+                # the trace is cut after the probe (thread not dead): the emulator must stop AT the probe event, not at the end
+                chk.violation("accepts-wrong-thread-state:" + last[2] + ":" + what.split(" from ")[1].replace(" ", "-"),
+                              "ovniemu processes %s; the model requires another thread state: %s" % (what, emucore._first_error(r["stderr"])),
+                              {"scenario": desc, "stderr": r["stderr"][:800]})
+        elif want == "accept":
+            if r["rc"] != 0:
+                chk.violation("rejects-nested:req:" + last[2], "ovniemu rejects %s: %s" % (what, emucore._first_error(r["stderr"])),
+                              {"scenario": desc, "stderr": r["stderr"][:800]})
+        else:   # the region is left open and the thread alive: only the probe itself must not be refused
+            probe_clk = s.events[-2][1]
+            if m_ is not None and int(m_.group(1)) == probe_clk:
+                chk.violation("rejects-nested:req:" + s.events[-2][2], "ovniemu refuses %s: %s" % (what, emucore._first_error(r["stderr"])),
+                              {"scenario": desc, "stderr": r["stderr"][:800]})
+
     real = emucore.run_real(build, scs)
     model = emucore.run_oracle(oracle, scs) if oracle else [None] * len(scs)
     corr = []
